@@ -92,7 +92,7 @@ func qreplay(behaviours [][]qstep, h hist, cw *vtrace.Writer, st *replayStats) {
 		nt := newNodeTable()
 		nt.project(q)
 		s := sched.New()
-		s.Watchdog = 3 * time.Second
+		s.Watchdog = 10 * time.Second
 		s.Control(q)
 		nenq := map[string]int{}
 		ndeq := map[string]int{}
@@ -207,7 +207,7 @@ func qreplay(behaviours [][]qstep, h hist, cw *vtrace.Writer, st *replayStats) {
 			}
 		}
 		s.FreeRun()
-		if !s.Join(5 * time.Second) {
+		if !s.Join(15 * time.Second) {
 			st.Watchdog++
 		}
 		s.Close()
